@@ -1384,10 +1384,26 @@ class Ctx:
         if isinstance(op, ast.NotEq):
             return b_not(self.eq(a, b))
 
+        def setlike(v):
+            return isinstance(v, (MSet, KeysView, set, frozenset)) or (isinstance(v, MObj) and hasattr(v, 'base'))
+
         def one(va, vb):
             x, y = va, vb
             if x is None or y is None:
                 return False      # poison: an exception guard already covers this alternative
+            if setlike(x) and setlike(y):
+                # subset comparisons of sets
+                sx, sy = self.to_mset(x), self.to_mset(y)
+                keys = list(sx.order) + [k for k in sy.order if k not in sx.bits]
+                sub = b_and(*[b_or(b_not(sx.get(k)), sy.get(k)) for k in keys])       # x <= y
+                sup = b_and(*[b_or(b_not(sy.get(k)), sx.get(k)) for k in keys])       # x >= y
+                if isinstance(op, ast.LtE):
+                    return sub
+                if isinstance(op, ast.GtE):
+                    return sup
+                if isinstance(op, ast.Lt):
+                    return b_and(sub, b_not(sup))
+                return b_and(sup, b_not(sub))
             r = {ast.Lt: lambda: x < y, ast.LtE: lambda: x <= y,
                  ast.Gt: lambda: x > y, ast.GtE: lambda: x >= y}[type(op)]()
             return bool(r)
@@ -1997,5 +2013,42 @@ def m_id(ctx, o):
     return fold(o, lambda x: id(x))
 
 
-MODELS = {weakref.WeakSet: m_set, id: m_id, set: m_set, dict: m_dict, list: m_list, len: m_len, iter: m_iter, next: m_next, min: m_min,
+def m_any(ctx, it):
+    acc = False
+    for (ge, v) in ctx.iter_plan(it):
+        acc = b_or(acc, b_and(ge, ctx.truth(v)))
+    return mk_bool(acc)
+
+
+def m_all(ctx, it):
+    acc = True
+    for (ge, v) in ctx.iter_plan(it):
+        acc = b_and(acc, b_or(b_not(ge), ctx.truth(v)))
+    return mk_bool(acc)
+
+
+def m_bool(ctx, o=False):
+    return mk_bool(ctx.truth(o))
+
+
+def m_max(ctx, *a):
+    if len(a) == 1:
+        a = a[0]
+        if isinstance(a, MList) and a.lo == a.hi:
+            a = a.slots[:a.lo]
+    vals = list(a)
+    cur = vals[0]
+    for v in vals[1:]:
+        cur = fold(cur, lambda x: fold(v, lambda y: (x if y is None else y if x is None else max(x, y))))
+    return cur
+
+
+def m_tuple(ctx, it=()):
+    plan = list(ctx.iter_plan(it))
+    if not all(g is True for g, _ in plan):
+        raise Unsupported('tuple() of a symbolic collection')
+    return tuple(v for _, v in plan)
+
+
+MODELS = {any: m_any, all: m_all, bool: m_bool, max: m_max, tuple: m_tuple, frozenset: m_set, weakref.WeakSet: m_set, id: m_id, set: m_set, dict: m_dict, list: m_list, len: m_len, iter: m_iter, next: m_next, min: m_min,
           isinstance: m_isinstance, super: m_super, range: m_range, sum: m_sum, str: m_str, sorted: m_sorted}
